@@ -74,6 +74,11 @@ def call_matrix(rc):
         sig = RB.registered_signature(m)
         sel = RB.selector(sig)
         sels.append((sel, [arg_bytes(a) for a in m["args"]]))
+        if m.get("alias") and m.get("via") != "decorator":
+            sels.append((RB.selector(RB.method_signature(dict(m, name=m["alias"]))), [arg_bytes(a) for a in m["args"]]))
+        if m.get("override"):
+            # the handler's own (python) name was NOT registered: its selector must be rejected
+            sels.append((RB.selector(RB.method_signature(dict(m, name=m.get("fname", m["name"])))), [arg_bytes(a) for a in m["args"]]))
     firsts = [(None, [])]
     for sel, extra in sels:
         firsts.append((sel, extra))
@@ -252,6 +257,10 @@ def router_strategy(draw, allow_bad=True):
                 m["config"] = cfg
         if draw(st.integers(0, 4)) == 0:
             m["override"] = draw(st.sampled_from(["renamed%d" % i, "do_it%d" % i]))
+            if via == "add" and draw(st.booleans()):
+                m["presig"] = True
+        if via == "add" and draw(st.integers(0, 5)) == 0:
+            m["alias"] = "alias%d" % i
         methods.append(m)
     if allow_bad and nm >= 2 and draw(st.integers(0, 14)) == 0:
         methods[1] = dict(methods[0], via="add")  # duplicate signature
